@@ -33,6 +33,8 @@ def main():
     rows = []
     for sid in ids:
         d = os.path.join(SEEDED, sid)
+        if not os.path.isdir(d):
+            continue
         meta = json.load(open(os.path.join(d, 'meta.json')))
         props = meta['property'] if isinstance(meta['property'], list) else [meta['property']]
         wt = '/tmp/wt_seed_%s' % sid.replace('-', '_')
